@@ -15,7 +15,7 @@ from pv.gen import expr
 ID = 'C14'
 LEVEL = 'exploration'
 TECHNIQUE = ('exception-surface runtime monitor on Enforcer.enforce under a hostile generated workload (leaf alphabet of '
-             'keywords, operators, brackets, digits, dots, quotes; credentials with every JSON type at every path position)')
+             'keywords, operators, brackets, digits, dots, quotes; credentials with every JSON type at every path position); overlapping requests under a deterministic line-level thread scheduler (sys.monitoring)')
 RULE = ('cases = acyclic rule sets (1-4 rules, rule: references to lower rules) whose leaves are kind:match checks with '
         'the left side drawn from a hostile alphabet (Python keywords, 1+, a.0, {[1]}, [, 0x, 007, 1., .5, .., a..b, '
         'dangling quotes, huge digit strings, unicode identifiers, nested brackets) or generated from fragments, right '
